@@ -23,7 +23,7 @@ THRESHOLDS = {
     "startup_vs_reference_nested_iteration": 1e-10,
     "two_level_start_is_interpolated_coarse_solution": 1e-10,
     "start_is_function_of_data_only": 0.5,
-    "start_error_over_converged_error": 1.0,   # (start error / converged error) / allowance (40 for one start-up cycle, 20 for more)
+    "start_error_over_converged_error": 1.0,   # (start error / converged error) / 20, judged for >= 2 start-up cycles and R0 <= 1e-3 Rmax
 }
 MIN_NONTRIVIAL = {"quick": 40, "thorough": 300}
 RULE = ("stage fmginterp: random fine/coarse pairs (midpoint-nested and arbitrary, any split, coarse ntheta down to 4), the matrix of "
@@ -36,5 +36,5 @@ ASSUMPTIONS = ["reference nested iteration uses the public level operators (vali
 TECHNIQUE = "runtime monitor: interpolation matrix by unit vectors with polynomial-moment oracle; reference-model monitor for the nested-iteration start-up across object histories (fresh / polluted / reused); ASan/UBSan replay"
 LEVEL_TEXT = ("sampled executions judged by an oracle: tensor moments up to degree 3 of every interpolation row (1e-11), start vector "
               "equal to a reference nested iteration over public operators (1e-10), to the independently computed interpolated coarse "
-              "solution for two levels, bit-identical across fresh/polluted/reused objects, and within 20-40x of the converged error (observed <= 13x / 5x)")
+              "solution for two levels, bit-identical across fresh/polluted/reused objects, and, with two or more start-up cycles, within 20x of the converged error (observed <= 5x)")
 LEVEL_NOTE = "trusts level operators checked elsewhere; sampling only; the linear-fallback defect at non-midpoint nodes is the recorded finding F2"
